@@ -103,11 +103,20 @@ def rule_a(ctx: Context, R: Reporter, fi: FuncInfo):
                 after_inc = cfg.reaches(inc.id, n.id, blocked=[w.id]) or inc.id == n.id
                 need_margin = step if after_inc else 0  # index used = j + step (if read after the increment in the same iteration)
                 ok = False
+                rsv = ExprResolver(fi.node)
                 for (atom, pol) in split_cond(w.ast, True):
                     if not isinstance(atom, ast.Compare) or len(atom.ops) != 1:
                         continue
                     l = _linear(atom.left, j, Ltexts)
                     r = _linear(atom.comparators[0], j, Ltexts)
+                    if l is None or r is None:
+                        # hoisted bound (`last = len(weights) - 1`): resolve loop-invariant locals, never the index itself
+                        def res_side(e):
+                            if any(isinstance(x, ast.Name) and x.id == j for x in ast.walk(e)):
+                                return e
+                            return rsv.resolve(e, w)
+                        l = _linear(res_side(atom.left), j, Ltexts)
+                        r = _linear(res_side(atom.comparators[0]), j, Ltexts)
                     if l is None or r is None:
                         continue
                     op = atom.ops[0]
